@@ -858,7 +858,7 @@ def wf_oracle(o):
         if sorted(g["edges"]) != edges:
             bad.append("W3 graph edges %r != (direct base, space) pairs %r" % (sorted(g["edges"]), edges))
     lastnames = [p.split(".")[-1] for p in sp]
-    dup = len(lastnames) != len(set(lastnames))
+    dup = False          # N9 is repaired in /repo: the self-check must pass whatever the bare names are
     for key in ("sys_sanity", "model_sanity"):
         if o[key] != "ok" and not (dup and o[key].startswith("AssertionError")):
             bad.append("W4 %s fails: %s" % (key, o[key]))
@@ -906,7 +906,7 @@ def c11_oracle(ops, r):
     return bad
 
 
-def c12_oracle(ops, r, exempt_n9=True):
+def c12_oracle(ops, r, exempt_n9=False):   # N9 is repaired in /repo
     bad = []
     for i, st in enumerate([{"obs": r["obs0"], "out": 0, "exc": None}] + r["steps"]):
         o = st["obs"]
